@@ -68,7 +68,19 @@ class Source(io.BufferedIOBase):
         n = max(0, min(n, self.size - self.pos))
         if n == 0:
             return b""
-        if self.kind == "random":
+        if self.kind == "half":
+            # 64 KiB of PRNG bytes alternating with 64 KiB of zeros: compresses to about one half, every run is different
+            parts = []
+            pos, left = self.pos, n
+            while left > 0:
+                blk, off = divmod(pos, 131072)
+                unit = random.Random(self.seed * 1000003 + blk).randbytes(65536) + bytes(65536)
+                take = min(left, 131072 - off)
+                parts.append(unit[off:off + take])
+                pos += take
+                left -= take
+            b = b"".join(parts)
+        elif self.kind == "random":
             b = self.rng.randbytes(n)
         elif self.kind == "period7":
             off = self.pos % 7
@@ -125,8 +137,12 @@ def main():
                 # the big member is added in a second session, to an archive that already exists
                 with py7zr.SevenZipFile(apath, "w", filters=filters, password=pw) as z:
                     z.writestr(b"first session", "seed.txt")
-            with py7zr.SevenZipFile(apath, "a" if spec.get("append") else "w", filters=filters, password=pw) as z:
-                for name, kind, size, seed in members:
+            groups = [members]
+            if spec.get("one_folder_each"):
+                groups = [[m] for m in members]  # one session, hence one folder, per member
+            for gi, group in enumerate(groups):
+              with py7zr.SevenZipFile(apath, "a" if (spec.get("append") or gi > 0) else "w", filters=filters, password=pw) as z:
+                for name, kind, size, seed in group:
                     if op == "writef" or size < (1 << 20):
                         z.writef(Source(kind, size, seed), name)
                     else:
